@@ -8,11 +8,30 @@ fn usage() -> ! {
 
 type RunFn = fn(&mut Global);
 
+#[cfg(not(feature = "serde"))]
+fn needs_serde(_g: &mut Global) {
+    eprintln!("INCONCLUSIVE this property needs the serde build of the harness (use ./check)");
+    std::process::exit(2);
+}
+
 fn table() -> Vec<(&'static str, RunFn)> {
+    #[cfg(feature = "serde")]
+    let serde_checks: Vec<(&'static str, RunFn)> = vec![("C06", props::c06::run as RunFn)];
+    #[cfg(not(feature = "serde"))]
+    let serde_checks: Vec<(&'static str, RunFn)> = vec![("C06", needs_serde as RunFn)];
+    let mut v = base_table();
+    v.extend(serde_checks);
+    v
+}
+
+fn base_table() -> Vec<(&'static str, RunFn)> {
     vec![
         ("C01", props::c01::run as RunFn),
         ("C02", props::c02::run as RunFn),
         ("C03", props::c03::run as RunFn),
+        ("C04", props::c04::run as RunFn),
+        ("C05", props::c05::run as RunFn),
+        ("C12", props::c12::run as RunFn),
     ]
 }
 
